@@ -136,7 +136,83 @@ def gen(group):
     return path
 
 
+ALL_HEAD = """/-
+Assembly: `InvR` (the invariant of the repaired code = `Inv` + no usage record keyed by a Pattern object + usage records are
+sets) is preserved by the successful branch of every repaired operation.  GENERATED by harness/props/c14_genlemmas.py.
+-/
+import WntrModel.Lemmas.RegistryStepAddNode
+import WntrModel.Lemmas.RegistryStepAddLink
+import WntrModel.Lemmas.RegistryStepAddOther
+import WntrModel.Lemmas.RegistryStepRemove
+import WntrModel.Lemmas.RegistryStepRemoveOther
+import WntrModel.Lemmas.RegistryStepSetLink
+import WntrModel.Lemmas.RegistryStepSetNode
+import WntrModel.Lemmas.RegistryNodup
+
+namespace Wntr.Registry
+set_option linter.unusedVariables false
+
+/-- the invariant of the REPAIRED code: all views agree, no usage record is keyed by a `Pattern` object (no code path of the
+repaired code writes one), and every usage record lists a user once (they are `OrderedSet`s) -/
+def InvR (s : Reg) : Prop := Inv s ∧ s.usage .patternObj = [] ∧ UsageNodup s
+
+theorem usageObjSound_of_empty (s : Reg) (h : s.usage .patternObj = []) : Clause.usageObjSound s := by
+  rw [Clause.usageObjSound_iff, h]; intro p u hu; simp at hu
+
+/-- `Inv` looks at nothing but the registries, the usage maps and the typed sets (not at controls or the uid counter) -/
+theorem inv_congr (s s' : Reg) (h1 : s'.nodes = s.nodes) (h2 : s'.links = s.links) (h3 : s'.patterns = s.patterns)
+    (h4 : s'.curves = s.curves) (h5 : s'.sources = s.sources) (h6 : s'.usage = s.usage) (h7 : s'.typed = s.typed)
+    (h : Inv s) : Inv s' := by
+  obtain ⟨n, l, p, c, so, ct, us, ty, nu⟩ := s
+  obtain ⟨n', l', p', c', so', ct', us', ty', nu'⟩ := s'
+  simp only at h1 h2 h3 h4 h5 h6 h7
+  subst h1 h2 h3 h4 h5 h6 h7
+  exact ⟨h.nodup, h.typedNodeSound, h.typedNodeComplete, h.typedLinkSound, h.typedLinkComplete, h.typedCurveSound, h.endsExist,
+    h.usageNodeSound, h.usageNodeLinks, h.usageNodeSources, h.usagePatSound, h.usagePatNodes, h.usagePatLinks, h.usagePatSources,
+    h.usageCurveSound, h.usageCurveNodes, h.usageCurveLinks, h.usageObjSound⟩
+
+theorem invR_congr (s s' : Reg) (h1 : s'.nodes = s.nodes) (h2 : s'.links = s.links) (h3 : s'.patterns = s.patterns)
+    (h4 : s'.curves = s.curves) (h5 : s'.sources = s.sources) (h6 : s'.usage = s.usage) (h7 : s'.typed = s.typed)
+    (h : InvR s) : InvR s' :=
+  ⟨inv_congr s s' h1 h2 h3 h4 h5 h6 h7 h.1, by rw [h6]; exact h.2.1, by unfold UsageNodup; rw [h6]; exact h.2.2⟩
+
+theorem invR_dropControls (s : Reg) (uid : Nat) (h : InvR s) : InvR (dropControls s uid) :=
+  invR_congr s _ rfl rfl rfl rfl rfl rfl rfl h
+"""
+
+
+def gen_all():
+    out = [ALL_HEAD]
+    for op, (group, binders, expr, facts, mid) in OPS.items():
+        names = []
+        for part in binders.split("("):
+            part = part.strip()
+            if part:
+                names += part.split(":")[0].split()
+        fn_ = [f.strip("()").split(":")[0].strip() for f in facts]
+        a = " ".join(names)
+        if op == "addPattern":
+            facts, call_cl = ["(hn : n ∉ s.patterns)"], a + " h.1"
+            nodup = "%sR_nodup %s hn h.1.nodup" % (op, a)
+        else:
+            call_cl = " ".join([a] + fn_ + ["h.1"])
+            nodup = "%sR_nodup %s h.1.nodup" % (op, a)
+        cs = ["c%d" % i for i in range(len(CLAUSES))]
+        out.append("theorem %sR_invR %s %s (h : InvR s) : InvR (%s) := by" % (op, binders, " ".join(facts), expr))
+        out.append("  obtain ⟨%s⟩ := %sR_clauses %s" % (", ".join(cs), op, call_cl))
+        out.append("  have hobj : (%s).usage .patternObj = [] := by rw [%sR_obj]; exact h.2.1" % (expr, op))
+        out.append("  exact ⟨⟨%s, %s, usageObjSound_of_empty _ hobj⟩, hobj, %sR_usageNodup %s h.2.2⟩" % (nodup, ", ".join(cs), op, a))
+        out.append("")
+    out.append("end Wntr.Registry")
+    path = os.path.join(LEAN, "RegistryStepAll.lean")
+    with open(path, "w") as f:
+        f.write("\n".join(out) + "\n")
+    return path
+
+
 if __name__ == "__main__":
     groups = sys.argv[1:] or sorted({v[0] for v in OPS.values()})
     for g in groups:
-        print(gen(g))
+        print(gen(g) if g != "All" else gen_all())
+    if not sys.argv[1:]:
+        print(gen_all())
